@@ -105,6 +105,20 @@ def feed(cx, channel, v):
     raise ValueError(channel)
 
 
+def mask(s):
+    """Secrets are dumped as a mask on purpose: when the re-parsed configuration is compared (to name what changed), every
+    secret counts as the same value."""
+    if s[0] == "SecretStr":
+        return ("SecretStr", "*")
+    if s[0] == "ns":
+        return ("ns", tuple((k, mask(v)) for k, v in s[1]))
+    if s[0] == "dict":
+        return ("dict", tuple((k, mask(v)) for k, v in s[1]))
+    if s[0] in ("list", "tuple", "set"):
+        return (s[0], tuple(mask(x) for x in s[1]))
+    return s
+
+
 def has_multi_set(s):
     if s[0] == "set":
         return len(s[1]) > 1 or any(has_multi_set(x) for x in s[1])
@@ -156,17 +170,17 @@ def fixed_point_checks(cx: Ctx, r, inp, reparse=None):
             rec.check(False, f"c10:{pre}{'redump' if kind == first_kind else clause}:{kind}", f"the dumped text cannot be parsed back: {back[1:]}", cx.case(inp, {"dump": d1[1][:300]}))
             first_kind = first_kind or kind
             continue
-        s_back = snap(back[1], drop=("cfg",))  # before dumping it: dump rewrites containers below tuples in place (C08)
+        s_back = mask(snap(back[1], drop=("cfg",)))  # before dumping it: dump rewrites containers below tuples in place (C08)
         d2 = outcome(p.dump, back[1], **kw)
         ok = d2[0] == "ok" and d2[1] == d1[1]
         key = ""
-        if not ok and d2[0] == "ok" and s_back == s_r and has_multi_set(s_r):
+        if not ok and d2[0] == "ok" and s_back == mask(s_r) and has_multi_set(s_r):
             # equal configurations whose texts differ while a set with several members is present: sets are unordered, the order
             # in which their members are written is not covered by the statement - not asserted, only counted
             rec.count("set-order-only")
             continue
         if not ok:
-            d = first_diff(s_r, s_back)
+            d = first_diff(mask(s_r), s_back)
             kind = f"{d[1]}:{leaf_label(d[2] if d[2] is not None else d[3])}" if d else ("text-only:" + hint if d2[0] == "ok" else f"second-dump-{d2[1]}:{hint}")
             key = f"c10:{pre}{'redump' if kind == first_kind else clause}:{kind}"
             first_kind = first_kind or kind
@@ -185,7 +199,7 @@ def grid_unit(unit):
             make_files()
             types = select(make_types(thorough, maxdepth), subset)[lo:hi]
             for ts in types:
-                if "Set[SecretStr" in ts.name:
+                if "SecretStr" in ts.name and "Set[" in ts.name:
                     continue  # two different secrets are both dumped as the mask on purpose; as set members they then collapse
                 for dlabel in ("none", "canon"):
                     default = None if dlabel == "none" else ts.canon
